@@ -263,6 +263,13 @@ func runC14(res *report.Result) {
 	if res.Thorough() {
 		envs = append(envs, cat.ExtraEnvelopes()...)
 	}
+	// the limit catalogue: one dimension exactly at a documented limit per entry; judged like
+	// every other entry (what the encoder accepts must round-trip, both serializers must agree)
+	nLimE, nLimV := len(cat.LimitEnvelopes()), len(cat.LimitValues())
+	envs = append(envs, cat.LimitEnvelopes()...)
+	vals = append(vals, cat.LimitValues()...)
+	res.Count("catalogue_limit_envelopes", int64(nLimE))
+	res.Count("catalogue_limit_values", int64(nLimV))
 	for i := range envs {
 		h.checkEnvelope(envs, i)
 		res.Seen("message_types", envs[i].Msg)
@@ -273,9 +280,10 @@ func runC14(res *report.Result) {
 	res.Count("catalogue_envelopes", int64(len(envs)))
 	res.Count("catalogue_values", int64(len(vals)))
 	res.Extra["exhaustive"] = true
-	res.Extra["bound"] = fmt.Sprintf("catalogue of %d envelopes (17 message types) x 2 serializers and %d values, see harness/codec/cat", len(envs), len(vals))
+	res.Extra["bound"] = fmt.Sprintf("catalogue of %d envelopes (17 message types) x 2 serializers and %d values, of which %d envelopes and %d values exactly at one documented limit (1024 assets / participants / sub-allocations, 128 byte amounts, 32 byte nonces), see harness/codec/cat", len(envs), len(vals), nLimE, nLimV)
 	res.Note("second wallet backend id %d registered in-process: %v (needed for two-entry wallet address maps)", cat.SecondBackend, cat.SecondBackendRegistered)
 	res.Note("not expressible by the protobuf serializer (run with the native one only): ShutdownMsg with a 65535 byte reason (frame limit), ChannelSyncMsg without state (FromState dereferences the nil state)")
+	res.Note("limit catalogue: entries with 1024 participants that carry a 64 byte wallet address or signature per participant exceed the 65535 byte protobuf frame and are run with the native serializer only (entries_not_expressible_protobuf)")
 	res.Note("two-entry participant maps inside channel.Params are not constructible with the sim backend (Address.BackendID() is the constant 0, NewParams refuses the key 1)")
 }
 
